@@ -203,6 +203,21 @@ func (c *Ctx) deepLeaves(fn *ssa.Function, isRead bool) (out []leaf, ok bool, wh
 		}
 		out = append(out, leaf{id: name, width: -1, order: "-", src: e})
 	}
+	// unrollAt: the datum is the running element of a literal list ranged over in
+	// this frame or in a calling frame (the per-item work moved into a helper)
+	unrollAt := func(v ssa.Value, fr *frame) (ssa.Value, int64, bool) {
+		cands := []dval{{v, fr}, d.resolveAll(v, fr)}
+		for _, cd := range cands {
+			in, isI := cd.v.(ssa.Instruction)
+			if !isI || in.Block() == nil || !inLoop(cd.fr.fn, in.Block()) {
+				continue
+			}
+			if iv, n, ok := d.rangeLiteralDeep(cd.v, cd.fr); ok && n <= 64 {
+				return iv, n, true
+			}
+		}
+		return nil, 0, false
+	}
 	for _, di := range d.order {
 		if st, isSt := di.i.(*ssa.Store); isSt && isRead && !excluded(di.fr) {
 			// io.LimitedReader{R: stream, N: n}
@@ -250,31 +265,27 @@ func (c *Ctx) deepLeaves(fn *ssa.Function, isRead bool) (out []leaf, ok bool, wh
 			if o := byteOrderOf(args[1]); o != "?" {
 				order = o
 			}
-			if inLoop(di.fr.fn, call.Block()) {
-				if iv, n, isLit := d.rangeLiteralDeep(args[2], di.fr); isLit && n <= 64 {
-					for k := int64(0); k < n; k++ {
-						d.under(listItem{idx: map[ssa.Value]int64{iv: k}}, func() { datum(call, di.fr, args[2], order) })
-					}
-					continue
+			if iv, n, isLit := unrollAt(args[2], di.fr); isLit {
+				for k := int64(0); k < n; k++ {
+					d.under(listItem{idx: map[ssa.Value]int64{iv: k}}, func() { datum(call, di.fr, args[2], order) })
 				}
+				continue
 			}
 			datum(call, di.fr, args[2], order)
 		case (id == "io.ReadFull" || id == "io.ReadAtLeast") && isRead && si == 0:
-			if inLoop(di.fr.fn, call.Block()) {
-				if iv, n, isLit := d.rangeLiteralDeep(args[1], di.fr); isLit && n <= 64 {
-					for k := int64(0); k < n; k++ {
-						d.under(listItem{idx: map[ssa.Value]int64{iv: k}}, func() { c.packedRead(d, call, di.fr, args[1], &out, fail) })
-					}
-					continue
+			if iv, n, isLit := unrollAt(args[1], di.fr); isLit {
+				for k := int64(0); k < n; k++ {
+					d.under(listItem{idx: map[ssa.Value]int64{iv: k}}, func() { c.packedRead(d, call, di.fr, args[1], &out, fail) })
 				}
+				continue
 			}
 			c.packedRead(d, call, di.fr, args[1], &out, fail)
 		case !isRead && si == 0 && (call.Call.IsInvoke() && call.Call.Method.Name() == "Write" || id == "bytes.Buffer.Write"):
 			var segs []bseg
 			okSeq := true
 			unrolled := false
-			if inLoop(di.fr.fn, call.Block()) {
-				if iv, n, isLit := d.rangeLiteralDeep(args[1], di.fr); isLit && n <= 64 {
+			{
+				if iv, n, isLit := unrollAt(args[1], di.fr); isLit {
 					unrolled = true
 					for k := int64(0); k < n && okSeq; k++ {
 						d.under(listItem{idx: map[ssa.Value]int64{iv: k}}, func() {
